@@ -14,6 +14,12 @@ ASSUMPTIONS_COMMON = [
 ]
 
 
+def _retag(ps, prop):
+    for p in ps:
+        p.tags["prop"] = prop
+    return ps
+
+
 def _c02(tier, seed):
     ps = families.c02(tier, seed)
     return ps + families.canaries_eq(ps)
@@ -70,6 +76,21 @@ def _c17(prop, tier, seed, args):
 
 
 PROPS = {
+    "C14": {
+        "family": lambda tier, seed: families.c14(tier, seed) + _retag(families.canaries_eq([p for p in families.c14(tier, seed) if "PartialEq" in p.focus][:8]), "C14"),
+        "bounds": {"quick": "per trait one fixed meaning x every documented spelling: ignore (4 forms) x method (4 forms) [x rank (4 forms, negative/positive)] for PartialEq (carrier PartialEq/Eq), Ord/PartialOrd (3 carriers), Hash; Clone/Into method forms; Default value (5) x new (4) forms + type-level (4); Debug type name (9) x key (7) forms (half), name/named_field bool forms, variant name forms; joined vs split #[educe] attributes, trait order, parameter order",
+                   "thorough": "all Debug type x key combinations"},
+        "trusted": [], "assumptions": ["weaker than stated: behavioural equality of every spelling under one shared contract, not token identity of the generated code; `bound` spellings (no run-time effect) are not covered"],
+        "explanation": "every member of a spelling group satisfies the single contract generated from the group's meaning; a mis-parsed spelling falls back to default behaviour and fails its postcondition",
+    },
+    "C15": {
+        "family": lambda tier, seed: families.c15(tier, seed),
+        "bounds": {"quick": "24 programs (structs and 2-3 variant enums, 1-3 fields of u8/u16/bool) educing all or a random subset (reordered, joined or split) of {Debug, PartialEq, Eq, PartialOrd, Ord, Hash, Clone, Default, Into(u16)}; every field draws an independent random attribute per trait (ignore/method/rank/rename/expression/marker)",
+                   "thorough": "120 programs"},
+        "trusted": [], "assumptions": ["weaker than stated: each trait's contract is generated from that trait's attributes alone and must hold whatever the other traits carry; token-level 'impl unchanged' is not decided",
+                                       "seeded pseudo-random family (VERIF_SEED); no must-fail canary of its own (the emitters' canaries run under C02-C10)"],
+        "explanation": "per-trait contracts under adversarial attributes of every other trait on the same fields",
+    },
     "C17": {
         "custom": _c17, "engine": "kani+verus",
         "technique": "Kani (bounded string length) on the mechanically extracted diagnostic string builders; Verus (unbounded) on the extracted discriminant-type selection arithmetic",
